@@ -271,6 +271,83 @@ func runGraphs(t *testing.T) {
 	})
 }
 
+// ---- export-star families (bounded-exhaustive): every set of `export *` edges among three ES modules, each
+// optionally also star-exporting a CommonJS module, with same-named exports that conflict; the entry enters
+// the graph through one module (directly or via an extra hop) and observes every namespace.
+func runStarFamilies(t *testing.T) {
+	H.Rule("stars", "bounded-exhaustive (sliced by seed in quick): all 64 sets of `export *` edges among three ES modules × 8 subsets of modules that also `export *` from a CommonJS module × which module the entry enters through × {direct, via an intermediate re-exporting module}, with a conflicting export name `same` declared by two modules and a local declaration shadowing a star; the entry logs the sorted keys and values of the namespace it entered through and of every module's namespace, and re-exports the entered module (entry exports compared for cjs/iife) × format; oracle as in `graphs`")
+	i := 0
+	edges := [][2]int{{1, 2}, {1, 3}, {2, 1}, {2, 3}, {3, 1}, {3, 2}}
+	for mask := 0; mask < 64; mask++ {
+		for cjsMask := 0; cjsMask < 8; cjsMask++ {
+			for enter := 1; enter <= 3; enter++ {
+				for _, viaMid := range []bool{false, true} {
+					for _, format := range []string{"esm", "cjs", "iife"} {
+						i++
+						if !H.MySlice(i) {
+							continue
+						}
+						if !H.Thorough() && uint64(i/H.NShards)%6 != H.Seed%6 {
+							continue
+						}
+						files := map[string]string{}
+						for m := 1; m <= 3; m++ {
+							var sb strings.Builder
+							// CommonJS star first or last, alternating by module, so that both orders occur
+							cjsLine := ""
+							if cjsMask&(1<<(m-1)) != 0 {
+								cjsLine = "export * from \"./c.cjs\";\n"
+							}
+							if m%2 == 0 {
+								sb.WriteString(cjsLine)
+							}
+							for k, e := range edges {
+								if mask&(1<<k) != 0 && e[0] == m {
+									fmt.Fprintf(&sb, "export * from \"./m%d.mjs\";\n", e[1])
+								}
+							}
+							if m%2 == 1 {
+								sb.WriteString(cjsLine)
+							}
+							fmt.Fprintf(&sb, "log(\"run m%d\");\nexport var own%d = \"own%d\";\n", m, m, m)
+							if m <= 2 {
+								fmt.Fprintf(&sb, "export var same = \"same-from-m%d\";\n", m)
+							}
+							files[fmt.Sprintf("m%d.mjs", m)] = sb.String()
+						}
+						files["c.cjs"] = "log(\"run c\");\nexports.fromC = \"c\";\nexports.alsoC = 42;\nexports.own3 = \"c-shadowed-by-local\";\n"
+						enterFile := fmt.Sprintf("m%d.mjs", enter)
+						if viaMid {
+							files["mid.mjs"] = fmt.Sprintf("export * from \"./%s\";\nexport var fromMid = \"mid\";\nlog(\"run mid\");\n", enterFile)
+							enterFile = "mid.mjs"
+						}
+						var eb strings.Builder
+						fmt.Fprintf(&eb, "import * as entered from \"./%s\";\nimport * as n1 from \"./m1.mjs\";\nimport * as n2 from \"./m2.mjs\";\nimport * as n3 from \"./m3.mjs\";\n", enterFile)
+						fmt.Fprintf(&eb, "export * from \"./%s\";\n", enterFile)
+						eb.WriteString("function dump(ns) { return Object.keys(ns).sort().map(function (k) { return k + \"=\" + String(ns[k]); }).join(\",\"); }\n")
+						eb.WriteString("log(\"entered\", dump(entered));\nlog(\"n1\", dump(n1));\nlog(\"n2\", dump(n2));\nlog(\"n3\", dump(n3));\n")
+						files["entry.mjs"] = eb.String()
+						c := Case{Files: files, Entry: "entry.mjs", Format: format, Platform: "node", Labels: []string{"star-family", fmt.Sprintf("stars=%d", bitsSet(mask)), fmt.Sprintf("cjsstars=%d", bitsSet(cjsMask))}}
+						if cjsMask != 0 {
+							c.Labels = append(c.Labels, "export-star-from-cjs")
+						}
+						H.Report(t, "stars", key(c), c, judge(c))
+					}
+				}
+			}
+		}
+	}
+	H.Exhaustive("stars", H.Thorough())
+}
+
+func bitsSet(x int) int {
+	n := 0
+	for ; x != 0; x &= x - 1 {
+		n++
+	}
+	return n
+}
+
 // ---- assets: the value obtained by importing a non-JavaScript file is exactly its bytes / text / JSON value
 
 const assetRef = `
@@ -346,7 +423,7 @@ func runAssets(t *testing.T) {
 	})
 }
 
-var subs = map[string]vdrv.ReplayFunc{"graphs": replay, "assets": replay}
+var subs = map[string]vdrv.ReplayFunc{"graphs": replay, "assets": replay, "stars": replay}
 
 func setup(t *testing.T) {
 	H = vdrv.New("C02")
@@ -361,6 +438,7 @@ func TestCheck(t *testing.T) {
 	complete := false
 	defer func() { H.Finish(complete) }()
 	H.RunReplays(t, subs)
+	H.Sub(t, "stars", runStarFamilies)
 	H.Sub(t, "graphs", runGraphs)
 	H.Sub(t, "assets", runAssets)
 	complete = true
